@@ -1183,6 +1183,10 @@ class Engine:
         return self.models["fstring"](self, st, node)
 
     def ev_Dict(self, node, st):
+        if not node.keys and getattr(self, "empty_dict_literal", None) is not None:
+            # `{}`: an empty dictionary on the heap (opt-in per contract: key / value types are given by the sidecar)
+            kt, vt, mkv = self.empty_dict_literal
+            return st.alloc(HDict(lambda q: z3.BoolVal(False), lambda q: mkv(), None, kt, vt))
         return VConc("dictlit", (node,))
 
     def ev_Lambda(self, node, st):
@@ -1383,6 +1387,20 @@ class Engine:
                 if pred_(node):
                     self._hooks_fired.add(id(hk_))
                     hk_(Spec(self, st), st, node)
+        # opt-in (per contract): `x = d[k]` on a dictionary splits into the path on which the key is missing (KeyError goes to the handler) and the path on which it is present
+        if getattr(self, "keyerror_paths", False) and isinstance(node, ast.Assign) and isinstance(node.value, ast.Subscript) and isinstance(node.value.value, ast.Name):
+            base = st.env.get(node.value.value.id)
+            if isinstance(base, VRef) and isinstance(st.heap.get(base.addr), HDict):
+                o = st.heap[base.addr]
+                kt = self.key_term(self.ev(node.value.slice, st))
+                s_miss = st.fork()
+                s_miss.assume(z3.Not(o.has(kt)))
+                if self.feasible(s_miss):
+                    K["exc"](s_miss, "KeyError", node)
+                st.assume(o.has(kt))
+                if not self.feasible(st):
+                    self.paths += 1
+                    return
         try:
             return m(node, st, K)
         except PathEnd:
